@@ -73,11 +73,15 @@ def run(prop, tier, seed, scratch, replay=None):
         wbfs = vlib.run_tlc(scratch, "AddrMgr.tla", "MC_AddrMgr_wallet.cfg", out_traces=wtr, tag="wallet", timeout=900,
                             emit_every=wev, emit_offset=seed)
         vlib.require_tlc_ok(wbfs, "exhaustive exploration (wallet-level stage)")
+        wsim = vlib.run_tlc(scratch, "AddrMgr.tla", "MC_AddrMgr_wallet_sim.cfg", simulate=300 if tier == "quick" else 3000, depth=27, seed=seed,
+                            out_traces=wtr, append_traces=True, tag="walletsim", timeout=900)
+        if wsim["errors"]:
+            raise vlib.Broken("wallet-level simulation failed: %s" % wsim["errors"][:3])
         wrep = scratch.path("wallet-report.json")
         vlib.run_driver(wdrv, ["-in", wtr, "-out", wrep, "-spec", "addrmgr-wallet", "-prop", prop, "-seed", seed, "-workers", vlib.NCPU], timeout=3600)
         wl = vlib.load_report(wrep)
-        if wl["traces"] != wbfs["ntraces"]:
-            raise vlib.Broken("wallet-level stage replayed %d of %d behaviours" % (wl["traces"], wbfs["ntraces"]))
+        if wl["traces"] != wbfs["ntraces"] + wsim["ntraces"]:
+            raise vlib.Broken("wallet-level stage replayed %d of %d behaviours" % (wl["traces"], wbfs["ntraces"] + wsim["ntraces"]))
         wl["_states"], wl["_transitions"] = wbfs["distinct"], wbfs["generated"]
         wl["_selftest"] = vlib.binding_selftest(
             scratch, wdrv, lambda i, o: ["-in", i, "-out", o, "-spec", "addrmgr-wallet", "-prop", prop, "-seed", seed, "-workers", vlib.NCPU],
